@@ -166,6 +166,9 @@ type evWorld struct {
 	peers  []evRow
 	// oracle bookkeeping
 	statusOff bool
+	topoOff   bool
+	exp       map[int]e2eExp // E2E tier: the harness's expectation of the quiesced state (wait condition only)
+	peers0    int            // E2E tier: system.peers queries seen before the last step
 	tracked  map[*gocql.HostInfo]bool // objects reported DOWN by an event and not connected since
 	prevIDs  map[int]bool             // host ids of the ring before the last evrefresh
 	lastRows []evRow                  // rows of the last evrefresh
